@@ -112,6 +112,12 @@ CLAIMED = {
    note="The theorem part covers termination logic only; totality of the process is evidence from fuzzing (not a proof) - this is what the model cannot carry. Nine defects fixed (two stack overflows, an infinite loop in the expression parser, two crashes on malformed YAML nodes, exponential type resolution, exponential generators, ...). Open known finding: evolution comparison of deeply layered models is still exponential.",
    technique="Lean 4 proof (termination rank from the dependency sort) + kernel-checked facts regenerated from source + resource-limited CLI fuzzing",
    design="§7 C10"),
+ "C08": dict(
+   engine="names",
+   text="Kernel-checked (what a theorem can carry): for every name and every case conversion the identifier a back end derives (converted name, suffixed when it is in the back end's reserved table) is never a reserved word of its target, over the reserved-name tables regenerated from the current source; the tables contain the words that break generated code. Decided by execution: the real identifier functions of the three back ends agree with the model on every reserved word (as written, camelCase, PascalCase, upper/lower) and on random names; random accepted packages (imports, generics, unions, computed fields, all type shapes incl. the regions the codec labs avoid) x option sets {generateNDJson, generateHDF5, generateCMakeLists, overrideArrayHeader} x {cpp, python, matlab, json}: yardl generate must succeed, every generated Python module must compile and the package import (types, protocols, binary, ndjson), the generated C++ must compile as C++17; packages whose field, step, enum-symbol, computed-field, union-tag, type and namespace names are the reserved words of every target; the scaffold of yardl init for several names must generate, import and compile.",
+   note="The theorem covers identifier escaping only; 'compiles and imports for every accepted package' is evidence from generating and building samples, not a proof. MATLAB output cannot be executed here (no MATLAB/Octave); HDF5 C++ is generated but not compiled (no HDF5 headers); C++ is compiled against the stand-in array header. Two defects fixed (names colliding after case conversion; Python keyword as union-case class). Open known findings: namespace named after a reserved word / runtime namespace; Python alias to a bare type parameter; inline union in an imported alias (Python); type parameter used only inside arrays (Python).",
+   technique="Lean 4 proof over regenerated reserved-word tables + in-process correspondence of identifier functions + generate/compile/import matrix",
+   design="§7 C08"),
 }
 NOT_YET = "machinery for this property is not built yet in this round (see DESIGN.md §10 build order)"
 checks, na = [], []
